@@ -9,7 +9,9 @@
 (* TextLayout oracles allow:                                                *)
 (*   escape   a changed cell lies outside the window's clip rectangle;      *)
 (*   landing  set cell / set style / fill / clear did not change exactly    *)
-(*            the accepted cells, to exactly the requested content;         *)
+(*            the accepted cells, to exactly the requested content (a cell  *)
+(*            displayed w cells wide, its width stated or left to be        *)
+(*            measured, is accepted iff all its w columns are);             *)
 (*   layout   a text helper did not place the clusters as TextLayout says.  *)
 (* Many scenarios per file ("reset" starts one).  Every rejected round is   *)
 (* reported with one REJECT line; rounds are independent (each starts from  *)
@@ -48,15 +50,38 @@ LandingOK(e, W, D) ==
        [] e.op = "style" ->
             /\ D = (IF acc THEN {<<x, y>>} ELSE {})
             /\ acc => At(t.grid, x, y) = [At(base, x, y) EXCEPT !.st = Pen(e.mk[3])]
-       [] e.op = "setw" ->       \* a two-cell marker: drawn whole when both halves are accepted
-            LET acc2 == Accepts(W, e.c + 1, e.r) IN
-            IF acc /\ acc2 THEN /\ D = {<<x, y>>, <<x + 1, y>>}
-                                /\ At(t.grid, x, y) = Marker(e.mk)
-                                /\ At(t.grid, x + 1, y) = Cont
-            ELSE D \subseteq {<<x, y>>, <<x + 1, y>>}    \* (and inside the clip: checked as "escape")
+       [] e.op \in {"setw", "set0"} ->
+            \* a cell displayed e.mk[2] cells wide, the width stated ("setw") or left to be measured
+            \* ("set0"; e.mk[2] is then the logged fact of the width this terminal gives the cluster):
+            \* drawn whole when all its columns are accepted
+            LET w == e.mk[2]
+                cs == Columns(W, e.c, e.r, w)
+            IN IF w < 1 THEN TRUE
+               ELSE IF AcceptsWide(W, e.c, e.r, w)
+               THEN /\ D = cs
+                    /\ At(t.grid, x, y) = Marker(e.mk)
+                    /\ \A p \in cs \ {<<x, y>>} : At(t.grid, p[1], p[2]) = Cont
+               ELSE D \subseteq cs                          \* (and inside the clip: checked as "escape")
        [] e.op = "fill" ->
             /\ D = CellsOf(W.clip)
             /\ \A p \in D : At(t.grid, p[1], p[2]) = Marker(e.mk)
+       [] e.op \in {"fillw", "fill0"} ->
+            \* fill with a cell displayed w >= 2 cells wide: every cell of the window is offered the
+            \* glyph, and one offered next to an accepted one covers or is covered by it, so the exact
+            \* pattern is not demanded: what changes shows the glyph or its continuation, and the
+            \* first column of every clip row, which nothing to its left can cover, has the glyph
+            \* when the clip is wide enough to accept it there
+            LET w == e.mk[2]
+                rc == W.clip
+            IN IF w < 1 THEN TRUE
+               ELSE IF w = 1 THEN /\ D = CellsOf(rc)
+                                  /\ \A p \in D : At(t.grid, p[1], p[2]) = Marker(e.mk)
+               ELSE /\ \A p \in D : At(t.grid, p[1], p[2]) \in {Marker(e.mk), Cont}
+                    /\ IF rc.x1 - rc.x0 >= w
+                       THEN \A yy \in rc.y0..(rc.y1 - 1) :
+                               /\ At(t.grid, rc.x0, yy) = Marker(e.mk)
+                               /\ \A i \in 1..(w - 1) : At(t.grid, rc.x0 + i, yy) = Cont
+                       ELSE D = {}
        [] e.op = "clear" ->
             /\ D = CellsOf(W.clip)
             /\ \A p \in D : At(t.grid, p[1], p[2]) = Blank(0)
@@ -65,6 +90,10 @@ LandingOK(e, W, D) ==
 Obs(W, D) == [p \in Visible(W) |->
                 [ch |-> <<AbsX(W, p[1]), AbsY(W, p[2])>> \in D,
                  cell |-> At(t.grid, AbsX(W, p[1]), AbsY(W, p[2]))]]
+
+(* For the rejection signature only: the text holds a cluster that this     *)
+(* terminal shows with another width than the Unicode tables give it.       *)
+TermWidth(e) == e.op = "text" /\ \E i \in 1..Len(e.items) : e.items[i].k = "g" /\ e.items[i].u # e.items[i].w
 
 Verdict(e) ==
   LET W == Win(e.chain, t.cols, t.rows)
@@ -110,7 +139,7 @@ Next ==
            ELSE /\ failed' = (v.why = "unknown-command")   \* rounds are independent: keep judging the others
                 /\ PrintT("REJECT " \o ToJson([scn |-> e.scn, line |-> l, rnd |-> e.rnd,
                                                op |-> IF e.op = "text" THEN e.fn ELSE e.op,
-                                               why |-> v.why, det |-> v.det]))
+                                               why |-> v.why, det |-> v.det, tw |-> TermWidth(e)]))
      ELSE
         /\ t' = Step(t, e)
         /\ UNCHANGED <<base, unk0, failed>>
